@@ -85,7 +85,7 @@ def run_case(case):
             check('addfields([(z, fn, %d)])' % c['index'], lambda: etl.addfields(t, [('z', counter(), c['index'])]), c['out'])
     for c in case['movefield']:
         check('movefield(%s, %d)' % (c['name'], c['index']), lambda: etl.movefield(t, c['name'], c['index']), c['out'])
-    check('addrownumbers(5, 2)', lambda: etl.addrownumbers(t, 5, 2), case['rownumbers'])
+    check('addrownumbers(100, 7)', lambda: etl.addrownumbers(t, 100, 7), case['rownumbers'])
     for c in case['addcolumn']:
         check('addcolumn(%r, index=%r)' % (c['col'], idx(c['index'])), lambda: etl.addcolumn(t, 'z', list(c['col']), index=idx(c['index'])), c['out'])
     check('cat', lambda: etl.cat(t, T2), case['cat'])
@@ -276,7 +276,7 @@ def record_traces(n, seed):
 def run(tier, seed):
     chk = Check(PID, tier, seed)
     full = tier == 'thorough'
-    cases, fills, downs = common.gen('RowOpsGen', outs=('OUT', 'OUT2', 'OUT3'))
+    cases, fills, downs = common.gen('RowOpsGen', 'RowOpsGenT' if full else 'RowOpsGen', outs=('OUT', 'OUT2', 'OUT3'))
     chk.states += 1          # RowOpsGen: the laws are evaluated as assumptions over all generated tables
     chk.transitions += 1
     for ci, case in enumerate(cases):
